@@ -36,6 +36,21 @@ type SetRecord struct {
 	Views   *Views
 	Before  map[string]string // device configuration before the call (only when CaptureViews)
 	Failed  bool
+	Wire    []WireResult // what the forwarders observed (only when CaptureViews)
+}
+
+// WireResult is what a device at the far end of a production target held after the same tree was handed to that target.
+type WireResult struct {
+	Name  string
+	After map[string]string
+	Desc  string
+	Err   error
+}
+
+// Forwarder hands the tree to a production target whose device starts from the given configuration.
+type Forwarder struct {
+	Name string
+	Fn   func(ctx context.Context, before map[string]string, src target.TargetSource) (after map[string]string, desc string, err error)
 }
 
 // RecDev is the recording device: a target.Target that renders the proto view of the
@@ -54,7 +69,9 @@ type RecDev struct {
 	PostHook func(n int) error
 	// SyncFn is run by Sync (C13 scripts)
 	SyncFn func(ctx context.Context, cfg *config.Sync, ch chan *target.SyncUpdate)
-	nSet   int
+	// Forward: production targets that are handed every tree as well (only when CaptureViews)
+	Forward []Forwarder
+	nSet    int
 }
 
 func NewRecDev() *RecDev { return &RecDev{Config: map[string]string{}} }
@@ -109,6 +126,18 @@ func (r *RecDev) Set(ctx context.Context, src target.TargetSource) (*sdcpb.SetDa
 	if r.CaptureViews {
 		rec.Views = captureViews(ctx, src)
 		rec.Before = r.Snapshot()
+		for _, f := range r.Forward {
+			wr := WireResult{Name: f.Name}
+			func() {
+				defer func() {
+					if p := recover(); p != nil {
+						wr.Err = fmt.Errorf("PANIC: %v", p)
+					}
+				}()
+				wr.After, wr.Desc, wr.Err = f.Fn(ctx, rec.Before, src)
+			}()
+			rec.Wire = append(rec.Wire, wr)
+		}
 	}
 	r.mu.Lock()
 	defer r.mu.Unlock()
